@@ -244,85 +244,147 @@ def rule_V2(ctx: Ctx) -> None:
 
 
 def rule_V3(ctx: Ctx) -> None:
+    """is_valid_path by abstract evaluation: an abstract 2x3 maze whose connectivity is a symbolic oracle; candidate paths that are
+    empty, single-cell, valid, broken at the first / middle / last step, and out of bounds on one axis only (low and high)"""
+    from sa.absnp import MODELS, Arr
+    from sa.fold import EvalRaised, Evaluator, Obj, Unknown
+
     f = ctx.index.func(f"{LM}.LatticeMaze.is_valid_path")
-    p = f.params()[1]
-    body = X.body_wo_doc(f.node)
-    # emptiness
-    e = [n for n in body if isinstance(n, ast.If) and X.U(X.substitute_len(n.test)) in (f"len({p}) == 0",)]
-    ok_e = len(e) == 1
-    # bounds
-    b = [n for n in body if isinstance(n, ast.If) and "grid_shape" in X.U(n.test)]
-    ok_b = None
-    slot = {}
-    if len(b) == 1:
-        t = b[0].test
-        inner = t.operand if isinstance(t, ast.UnaryOp) and isinstance(t.op, ast.Not) else None
-        red = X.np_method(inner, "all")
-        if red is not None and not N.kwarg(red[1], "axis") and isinstance(red[0], ast.BinOp) and isinstance(red[0].op, ast.BitAnd):
-            atoms = set()
-            for side in (red[0].left, red[0].right):
-                if isinstance(side, ast.Compare) and len(side.ops) == 1:
-                    atoms.add(N.compare_atom(side.left, side.ops[0], side.comparators[0]).key())
-            want = {N.compare_atom(ast.Constant(0), ast.LtE(), X.expr_of(p)).key(), N.compare_atom(X.expr_of(p), ast.Lt(), X.expr_of("self.grid_shape")).key()}
-            ok_b = atoms == want and any(isinstance(s, ast.Return) and isinstance(s.value, ast.Constant) and s.value.value is False for s in b[0].body)
-        else:
-            ok_b = False
-        slot["bounds_test"] = X.U(t)
-    # consecutive pairs (normalised shape: `return all(self.nodes_connected(p[i], p[i + 1]) for i in range(len(p) - 1))`)
-    last = body[-1] if body else None
-    ok_l = None
-    ok_t = False
-    if isinstance(last, ast.Return) and isinstance(last.value, ast.Call) and dotted_of(last.value.func) == "all" and len(last.value.args) == 1 \
-            and isinstance(last.value.args[0], (ast.GeneratorExp, ast.ListComp)) and len(last.value.args[0].generators) == 1:
-        g = last.value.args[0].generators[0]
-        i = X.U(g.target)
-        rng = isinstance(g.iter, ast.Call) and dotted_of(g.iter.func) == "range" and len(g.iter.args) == 1 and N.aff_eq(X.substitute_len(g.iter.args[0]), X.expr_of(f"len({p}) - 1")) \
-            and not g.ifs
-        elt = last.value.args[0].elt
-        pair = isinstance(elt, ast.Call) and X.U(elt.func) == "self.nodes_connected" and len(elt.args) == 2 and not elt.keywords \
-            and all(isinstance(a, ast.Subscript) and X.U(a.value) == p for a in elt.args) \
-            and N.aff_eq(elt.args[0].slice, X.expr_of(i)) and N.aff_eq(elt.args[1].slice, X.expr_of(f"{i} + 1"))
-        ok_l = bool(rng and pair)
-        ok_t = True
-        slot["pair_test"] = X.U(last.value)
-    elif [n for n in body if isinstance(n, ast.For)]:
-        ok_l = False
-        slot["pair_test"] = "loop of an unfamiliar shape"
-    full = None if (ok_b is None or ok_l is None) else (ok_e and ok_b and ok_l and ok_t)
-    ctx.judge(f, full, {**slot, "emptiness_check": ok_e, "final_true": ok_t},
-              "is_valid_path: empty -> empty_is_valid; any coordinate outside [0, grid_shape) -> False; every consecutive pair must be connected; else True",
-              "a path with an out-of-grid cell (negative indices wrap) or an unchecked last/first step is accepted")
+    pp = f.params()
+    connected = {((0, 0), (0, 1)), ((0, 1), (1, 1)), ((1, 1), (1, 2)), ((1, 1), (1, 0))}
+
+    def conn(a, b):
+        a, b = tuple(a.data if isinstance(a, Arr) else a), tuple(b.data if isinstance(b, Arr) else b)
+        return (a, b) in connected or (b, a) in connected
+
+    def hook(ev, node, env):
+        d = dotted_of(node.func) or ""
+        if d in MODELS:
+            args = [ev.ev(a, env) for a in node.args]
+            kw = {k.arg: ev.ev(k.value, env) for k in node.keywords if k.arg}
+            try:
+                return MODELS[d](*args, **kw)
+            except (ValueError, IndexError) as e:
+                raise EvalRaised(type(e).__name__, str(e))
+            except Exception as e:
+                raise Unknown(f"model of {d}: {e}")
+        if d.endswith("nodes_connected") and len(node.args) == 2:
+            return conn(ev.ev(node.args[0], env), ev.ev(node.args[1], env))
+        return NotImplemented
+    me = Obj("maze", {"grid_shape": (2, 3), "grid_n": 2})
+    P = lambda *cs: Arr([list(c) for c in cs])
+    cases = [("empty", Arr([]), None), ("single cell", P((1, 1)), True), ("valid", P((0, 0), (0, 1), (1, 1), (1, 2)), True), ("valid, revisiting", P((1, 1), (1, 0), (1, 1)), True),
+             ("broken first step", P((0, 0), (1, 0), (1, 1)), False), ("broken middle step", P((0, 0), (0, 1), (0, 2), (1, 2)), False),
+             ("broken last step", P((0, 0), (0, 1), (1, 1), (0, 1), (0, 2)), False), ("non-adjacent jump", P((0, 0), (1, 1)), False),
+             ("row too large", P((1, 1), (2, 1)), False), ("column too large (oblong)", P((1, 2), (1, 3)), False), ("row index 2 is outside although a column index 2 exists", P((2, 2),), False),
+             ("negative row", P((-1, 0), (0, 0)), False), ("negative column", P((0, -1), (0, 0)), False), ("single cell with a negative row", P((-1, 1)), False),
+             ("single cell with a negative column", P((1, -2)), False), ("single cell beyond the last column", P((0, 3)), False)]
+    bad, unk = [], []
+    for label, path, want in cases:
+        for eiv in (False, True):
+            w = eiv if want is None else want
+            try:
+                got = Evaluator({"__call__": hook}).run_body(X.body_wo_doc(f.node), {pp[0]: me, pp[1]: path.copy(), pp[2]: eiv})
+            except EvalRaised as e:
+                got = f"raises {e.exc_name}"
+            except Unknown as e:
+                unk.append(f"{label}: {e}"[:140])
+                continue
+            if isinstance(got, str) or bool(got) is not w:
+                bad.append({"path": label, "empty_is_valid": eiv, "found": got, "expected": w})
+    ctx.judge(f, False if bad else None if unk else True, {"cases": 2 * len(cases), "deviations": bad[:3], "undecided": unk[:2]},
+              "is_valid_path: empty -> empty_is_valid; any coordinate outside [0, grid_shape) on its own axis -> False; every consecutive pair must be connected; else True",
+              "a path with an out-of-grid cell or a step along a wall is accepted (or a valid one rejected)")
 
 
 def rule_V4(ctx: Ctx) -> None:
+    """forking / path-following points by abstract evaluation: solutions of 1..4 symbolic cells, every vector of cell degrees in
+    {1,2,3}^len, both settings of always_include_endpoints; the neighbour query is a symbolic oracle returning `degree` rows"""
+    import itertools
+
+    from sa.absnp import MODELS, Arr
+    from sa.fold import EvalRaised, Evaluator, Obj, Unknown
+
     f = ctx.index.func(f"{LM}.SolvedMaze.get_solution_forking_points")
-    ie = X.assignments_to(f.node, "is_endpoint")
-    ok1 = None
-    if len(ie) == 1:
-        ok1, s1 = X.relation_in(ie[0], ["idx == 0 or idx == len(self.solution) - 1"])
-    th = X.assignments_to(f.node, "theshold") or X.assignments_to(f.node, "threshold")
-    ok2 = len(th) == 1 and isinstance(th[0], ast.IfExp) and N.const_int(th[0].body) == 1 and N.const_int(th[0].orelse) == 2 and X.U(th[0].test) == "is_endpoint"
-    tests = [n for n in ast.walk(f.node) if isinstance(n, ast.If) and "get_coord_neighbors" in X.U(n.test)]
-    ok3 = None
-    slot = {"is_endpoint": X.U(ie[0]) if ie else None, "threshold": X.U(th[0]) if th else None}
-    if len(tests) == 1:
-        tname = "theshold" if X.assignments_to(f.node, "theshold") else "threshold"
-        ok3, s3 = X.relation_in(tests[0].test, [f"len(self.get_coord_neighbors(coord)) > {tname} or (is_endpoint and always_include_endpoints)"])
-        slot["fork_test"] = s3["found"]
-        app = [X.U(s) for s in tests[0].body]
-        ok3 = ok3 and any("output_idxs.append(idx)" in a for a in app) and any("output_coords.append(coord)" in a for a in app)
-    loop = [n for n in f.node.body if isinstance(n, ast.For)]
-    ok4 = len(loop) == 1 and X.U(loop[0].iter) == "enumerate(self.solution)"
-    ctx.judge(f, None if ok1 is None or ok3 is None else (ok1 and ok2 and ok3 and ok4), slot,
-              "a solution cell is a fork iff it has more than (1 if endpoint else 2) connected neighbours, i.e. more than one onward choice",
-              "forks are counted with the wrong threshold: dead-end corridors become forks or real forks are missed")
     g = ctx.index.func(f"{LM}.SolvedMaze.get_solution_path_following_points")
-    dels = [c for c in X.calls(g.node) if dotted_of(c.func) in ("np.delete", "numpy.delete")]
-    fk = [s for s in ast.walk(g.node) if isinstance(s, ast.Assign) and "get_solution_forking_points()" in X.U(s.value)]
-    idxv = X.U(fk[0].targets[0].elts[0]) if fk and isinstance(fk[0].targets[0], ast.Tuple) else None
-    ok = len(dels) == 2 and idxv is not None and all(X.U(d.args[1]) == idxv for d in dels) and \
-        {X.U(X.substitute_len(d.args[0])) for d in dels} == {"np.arange(len(self.solution))", "self.solution"}
-    ctx.judge(g, ok, {"deletes": [X.U(d) for d in dels], "fork_indices": idxv},
+
+    def np_delete(arr, idxs, axis=0):
+        d = arr.data if isinstance(arr, Arr) else list(arr)
+        drop = set(idxs.data if isinstance(idxs, Arr) else idxs)
+        return Arr([x for i, x in enumerate(d) if i not in drop])
+    models = {**MODELS, "np.delete": np_delete, "np.arange": lambda n, *a, **k: Arr(list(range(int(n))))}
+
+    def run(fn, self_obj, args, degrees, depth=0):
+        def hook(ev, node, env):
+            d = dotted_of(node.func) or ""
+            if d in models:
+                a_ = [ev.ev(x, env) for x in node.args]
+                kw = {k.arg: ev.ev(k.value, env) for k in node.keywords if k.arg}
+                try:
+                    return models[d](*a_, **kw)
+                except (ValueError, IndexError) as e:
+                    raise EvalRaised(type(e).__name__, str(e))
+                except Exception as e:
+                    raise Unknown(f"model of {d}: {e}")
+            if d.endswith(".get_coord_neighbors") and len(node.args) == 1:
+                c = ev.ev(node.args[0], env)
+                key = tuple(c.data) if isinstance(c, Arr) else tuple(c)
+                return Arr([[0, 0]] * degrees[key])
+            if d.endswith(".get_solution_forking_points") and depth < 2:
+                a_ = [ev.ev(x, env) for x in node.args]
+                kw = {k.arg: ev.ev(k.value, env) for k in node.keywords if k.arg}
+                pf = f.params()
+                dflt = f.param_default(pf[1])
+                v = a_[0] if a_ else kw.get(pf[1], dflt.value if isinstance(dflt, ast.Constant) else False)
+                return run(f, self_obj, [v], degrees, depth + 1)
+            return NotImplemented
+        env = dict(zip(fn.params(), [self_obj, *args]))
+        return Evaluator({"__call__": hook}).run_body(X.body_wo_doc(fn.node), env)
+
+    bad_f, bad_g, unk = [], [], []
+    n_cases = 0
+    for n in (1, 2, 3, 4):
+        cells = [(k, k + 10) for k in range(n)]
+        for degs in itertools.product((1, 2, 3), repeat=n):
+            degrees = dict(zip(cells, degs))
+            me = Obj("self", {"solution": Arr([list(c) for c in cells])})
+            for always in (False, True):
+                n_cases += 1
+                want = [i for i in range(n) if degs[i] > (1 if i in (0, n - 1) else 2) or (i in (0, n - 1) and always)]
+                try:
+                    got = run(f, me, [always], degrees)
+                    gi = got[0] if isinstance(got, (tuple, list)) and len(got) == 2 else got
+                    gi = list(gi.data if isinstance(gi, Arr) else gi)
+                    gc = got[1]
+                    gc = gc.data if isinstance(gc, Arr) else gc
+                    okc = [tuple(x.data if isinstance(x, Arr) else x) for x in (gc or [])] == [cells[i] for i in want]
+                except EvalRaised as e:
+                    gi, okc = f"raises {e.exc_name}", False
+                except Unknown as e:
+                    unk.append(str(e)[:140])
+                    continue
+                if (gi != want or not okc) and len(bad_f) < 3:
+                    bad_f.append({"degrees": list(degs), "always_include_endpoints": always, "fork_indices": gi, "expected": want})
+            try:
+                got = run(g, me, [], degrees)
+                fi = got[0]
+                fi = list(fi.data if isinstance(fi, Arr) else fi)
+                want_f = [i for i in range(n) if not (degs[i] > (1 if i in (0, n - 1) else 2))]
+                fc = got[1]
+                fc = [tuple(x) for x in (fc.data if isinstance(fc, Arr) else fc)]
+                if (fi != want_f or fc != [cells[i] for i in want_f]) and len(bad_g) < 3:
+                    bad_g.append({"degrees": list(degs), "following_indices": fi, "expected": want_f})
+            except EvalRaised as e:
+                if len(bad_g) < 3:
+                    bad_g.append({"degrees": list(degs), "raises": e.exc_name})
+            except Unknown as e:
+                unk.append("following: " + str(e)[:120])
+    u_f = [u for u in unk if not u.startswith("following")]
+    u_g = [u for u in unk if u.startswith("following")]
+    ctx.judge(f, False if bad_f else None if u_f else True, {"cases": n_cases, "deviations": bad_f, "undecided": u_f[:2]},
+              "a solution cell is a fork iff it has more than (1 if endpoint else 2) connected neighbours, i.e. more than one onward choice (endpoints also when forced in)",
+              "forks are counted with the wrong threshold: dead-end corridors become forks or real forks are missed")
+    ctx.judge(g, False if bad_g else None if u_g else True, {"deviations": bad_g, "undecided": u_g[:2]},
               "path-following points = the solution with exactly the forking indices (default arguments) deleted: a partition by construction",
               "the two index sets overlap or leave cells out")
 
